@@ -93,10 +93,54 @@ func waitOptOrder(c *vcase.Case, ans *vrun.Answer) string {
 	return ""
 }
 
+// cancelMotif builds a run whose only output consists of wait-optional fields and whose caller
+// cancels while a source is busy: every source then finishes one way or the other (produced,
+// cancelled, closed without a result, never started), so every field must be evaluated and the
+// output delivered - an "execution aborted" error after the grace period means a field was never
+// evaluated although its source was over.
+func cancelMotif(rt *rapid.T) *vcase.Case {
+	mk := func(id, op string) *vcase.Step {
+		return &vcase.Step{ID: id, Kind: "plugin", Op: op, Input: vcase.MapVal([]string{"key"}, []*vcase.Val{vcase.LitVal(vcase.StrLit(id))})}
+	}
+	wo := func(step string) *vcase.Val {
+		return &vcase.Val{K: "waitopt", Expr: &vcase.Expr{K: "out", Step: step, Stage: "outputs", Output: "success"}}
+	}
+	slowOp := rapid.SampledFrom([]string{"op", "op", "op_nc"}).Draw(rt, "cm.slowop")
+	fast, slow, blocked := mk("cfast", "op"), mk("cslow", slowOp), mk("cblocked", "op")
+	blocked.WaitFor = vcase.ExprVal(&vcase.Expr{K: "out", Step: "cslow", Stage: "outputs", Output: "success"})
+	onCancel := rapid.SampledFrom([]string{"alt", "alt", "ignore"}).Draw(rt, "cm.oncancel")
+	if onCancel == "ignore" || rapid.Bool().Draw(rt, "cm.closure0") {
+		// a step that ignores the cancel signal is over only once it is force-closed
+		slow.ClosureTimeoutMs = vcase.LitVal(vcase.IntLit(int64(rapid.SampledFrom([]int{0, 0, 50}).Draw(rt, "cm.closure"))))
+	}
+	c := &vcase.Case{Prop: "C15", Profile: "motif:wait-optional-under-cancellation", Subs: map[string]*vcase.Program{}, InputDoc: map[string]any{},
+		Main: &vcase.Program{Steps: []*vcase.Step{fast, slow, blocked},
+			Outputs: []*vcase.Output{{ID: "success", Val: vcase.MapVal([]string{"fast", "slow", "blocked"}, []*vcase.Val{wo("cfast"), wo("cslow"), wo("cblocked")})}}}}
+	c.Script.Steps = map[string]vplug.Behaviour{
+		"cfast":    {Outcome: "success"},
+		"cslow":    {Outcome: "never", OnCancel: onCancel, CancelDelayMs: rapid.IntRange(0, 20).Draw(rt, "cm.canceldelay")},
+		"cblocked": {Outcome: "success"},
+	}
+	c.Script.Deploys = map[string]vplug.DeployBehaviour{}
+	switch rapid.SampledFrom([]string{"running", "running", "deploying"}).Draw(rt, "cm.when") {
+	case "running":
+		c.Triggers = []vrun.Trigger{{Action: "cancel", On: "exec-start:cslow", AfterMs: rapid.IntRange(0, 30).Draw(rt, "cm.after")}}
+	case "deploying":
+		c.Script.Deploys["vp://cslow"] = vplug.DeployBehaviour{DelayMs: 300}
+		c.Triggers = []vrun.Trigger{{Action: "cancel", On: "exec-end:cfast", AfterMs: rapid.IntRange(5, 60).Draw(rt, "cm.after")}}
+	}
+	c.Triggers = append(c.Triggers, vrun.Trigger{Action: "cancel", AfterMs: 400})
+	c.Labels = []string{"motif:wait-optional-under-cancellation", "cancel-motif:slow-" + slowOp}
+	return c
+}
+
 func TestC15(t *testing.T) {
 	p := tagProfile()
 	runProperty(t, "C15",
 		func(rt *rapid.T) *vcase.Case {
+			if rapid.IntRange(0, 11).Draw(rt, "cancelmotif?") == 0 {
+				return cancelMotif(rt)
+			}
 			c := vcase.GenCase(rt, p, "C15")
 			if rapid.IntRange(0, 2).Draw(rt, "softmotif?") == 0 {
 				addSoftMotif(c)
@@ -111,6 +155,43 @@ func TestC15(t *testing.T) {
 			}
 			if owner, _ := anomaly(ans); owner != "" {
 				st.ForeignAnomaly(owner, c)
+				return ""
+			}
+			if c.Profile == "motif:wait-optional-under-cancellation" {
+				st.Record(c, true, c.Labels)
+				if strings.Contains(ans.Returned.Err, "workflow execution aborted") {
+					// sound only if the busy source really was over long before the grace period ended
+					over := false
+					for _, e := range ans.Log {
+						if e.Phase == "run" && e.Kind == "conn-close" && e.Key == "vp://cslow" && e.TUs+2_000_000 < ans.TReturnUs {
+							over = true
+						}
+					}
+					if !over {
+						st.Label("cancel-motif:source-not-over-in-time(inconclusive)")
+						return ""
+					}
+					return "wait-optional fields were not evaluated although every source was over (run cancelled, all steps closed): " + short(ans.Returned.Err, 300)
+				}
+				if ans.Returned.Err != "" {
+					return "" // an error reported by a step won the race against the output: permitted
+				}
+				data, _ := ans.Returned.Data.(map[string]any)
+				if _, has := data["blocked"]; has {
+					return "wait-optional field present although its source never ran"
+				}
+				if _, has := data["slow"]; has {
+					return "wait-optional field present although its source did not produce the referenced output"
+				}
+				if _, has := data["fast"]; !has {
+					for _, e := range ans.Log {
+						// (an output that reached the engine well before the cancellation; one that is still
+						// on its way when the run is cancelled may legitimately be lost)
+						if e.Phase == "run" && e.Kind == "exec-end" && e.Key == "cfast" && ans.TCancelUs > 0 && e.TUs+20_000 < ans.TCancelUs {
+							return "wait-optional field absent although its source produced the referenced output"
+						}
+					}
+				}
 				return ""
 			}
 			if ans.Returned.Err != "" && strings.Contains(ans.Returned.Err, fallbackText) && len(m.Producible()) > 0 {
